@@ -127,9 +127,15 @@ def run(seed, n_dist, n_lat, keep=None):
         a, b = body.strip().lstrip('(').rstrip(')').split('],')[0] + ']', body.strip().rstrip(')').split('],', 1)[1] if '],' in body else '[]'
         parse = lambda t: [int(x.replace('%nat', '')) for x in t.strip().strip('[]').split(';') if x.strip()]
         fd, fl_ = parse(a), parse(b)
-        fails = []
+        fails = []; libm = 0
         for i in fd:
             p, q, dd, eps, c = dist[i]
+            import decimal
+            ref = reference_distance(p, q)
+            if ref > 0 and abs(decimal.Decimal(dd) - ref) <= decimal.Decimal(math.ulp(dd)) * 2 and c == (dd <= eps):
+                # within two units in the last place of the true distance and consistent with its own `<=`:
+                # math.pow is libm's pow, which is not specified to round x^2 correctly (the model squares by x*x)
+                libm += 1; continue
             fails.append({'kind': 'distance', 'p': [float(x).hex() for x in p], 'q': [float(x).hex() for x in q], 'impl_distance': dd.hex(),
                           'eps': float(eps).hex(), 'impl_close': c, 'python_types': sorted({type(x).__name__ for x in p + q}),
                           'not_euclidean': far_from_euclidean(p, q, dd)})
@@ -141,7 +147,7 @@ def run(seed, n_dist, n_lat, keep=None):
         for i, c in enumerate(dist):
             kinds[i % 7] = kinds.get(i % 7, 0) + 1
         stats = {'distance_cases': len(dist), 'lattice_cases': len(lat), 'ties_at_eps': sum(1 for c in dist if c[2] == c[3]),
-                 'coordinate_kinds': 'integers, decimals, uniform, zeros/subnormals/tiny, wide exponents, ldexp, Python ints up to 2^45', 'differing': len(fails)}
+                 'coordinate_kinds': 'integers, decimals, uniform, zeros/subnormals/tiny, wide exponents, ldexp, Python ints up to 2^45', 'differing': len(fails), 'libm_rounding_differences_not_counted': libm}
         if keep and fails:
             shutil.copy(path, keep)
         return stats, fails
